@@ -39,7 +39,7 @@ func (c *validatorListConstructor) buildList(node schema.Node) {
 		c.appendTypeValidators(names)
 
 		if constr := node.Constraint(constraint.NullableConstraintType); constr != nil {
-			c.list = append(c.list, newLiteralValidator(node, c.parent))
+			c.list = append(c.list, newNullValidator(node, c.parent))
 		}
 	} else {
 		c.appendNodeValidators(node)
@@ -84,7 +84,7 @@ func (c *validatorListConstructor) appendNodeValidators(node schema.Node) {
 	// An object or array marked `nullable: true` also admits null, exactly like a
 	// nullable literal or a nullable type reference does.
 	if _, ok := v.(*anyNestedStructure); !ok && isNullableBranchNode(node) {
-		c.list = append(c.list, newLiteralValidator(node, c.parent))
+		c.list = append(c.list, newNullValidator(node, c.parent))
 	}
 }
 
